@@ -577,6 +577,22 @@ def r_rawtitle(doc, op):
           {'title': _name(TABLE_NAMES, op['name']) or ''}]
 
 
+def r_sortspec(doc, op):
+  """Sort every view section of one table by some of its columns (as the client's 'save sort' does per section)."""
+  t = _tables(doc, op['a'], include_summary=False)
+  if not t: return None
+  cols = _mask_pick(_cols(doc, t['id']), op['b'])[:3]
+  secs = [x['id'] for x in doc.meta('_grist_Views_section')
+          if x['tableRef'] == t['id'] and x['id'] != t.get('recordCardViewSectionRef')]   # (record cards are fixed)
+  if not secs or not cols: return None
+  import json as _json
+  specs = []
+  for i, sid in enumerate(secs):
+    refs = [(-c['id'] if (int(op['c']) + i + j) % 3 == 0 else c['id']) for j, c in enumerate(cols)]
+    specs.append(_json.dumps(refs[i % 2:] or refs))
+  return ['BulkUpdateRecord', '_grist_Views_section', secs, {'sortColRefs': specs}]
+
+
 def r_displaycol(doc, op):
   cands = [c for c in doc.columns_meta() if c['type'].startswith('Ref') and not is_hidden_col(c['colId'])]
   if not cands: return None
@@ -727,7 +743,7 @@ RESOLVERS = {
   'reverse': r_reverse, 'meta_col': r_meta_col, 'meta_table': r_meta_table, 'meta_rmcol': r_meta_rmcol,
   'meta_rmtable': r_meta_rmtable, 'meta_rmfield': r_meta_rmfield, 'rawtitle': r_rawtitle,
   'displaycol': r_displaycol, 'rule': r_rule, 'trigger': r_trigger, 'choices': r_choices,
-  'copyfrom': r_copyfrom, 'bad': r_bad, 'revive': r_revive, 'rmref': r_rmref,
+  'copyfrom': r_copyfrom, 'bad': r_bad, 'revive': r_revive, 'rmref': r_rmref, 'sortspec': r_sortspec,
 }
 
 SCHEMA_KINDS = set(RESOLVERS) - {'add', 'update', 'remove', 'replace', 'bad'}
@@ -765,7 +781,7 @@ def op_strategy(kind):
     base.update(b=_sel, f=fspec())
   elif kind in ('rentable', 'duptable', 'meta_table', 'rawtitle'):
     base.update(name=st.integers(0, len(TABLE_NAMES) - 1), c=_sel)
-  elif kind in ('summary', 'summaryupd'):
+  elif kind in ('summary', 'summaryupd', 'sortspec'):
     base.update(b=_mask, c=_sel)
   elif kind in ('addview', 'addsection', 'displaycol', 'rmsection'):
     base.update(b=_sel, c=_sel)
@@ -788,7 +804,7 @@ PROFILES = {
     'modformula': 4, 'toggle': 2, 'rmtable': 1, 'rentable': 3, 'duptable': 1,
     'summary': 4, 'summaryupd': 2, 'detach': 1, 'addview': 1, 'addsection': 1, 'rmsection': 1, 'rmview': 1,
     'reverse': 2, 'meta_col': 4, 'meta_table': 1, 'meta_rmcol': 1, 'meta_rmtable': 1, 'meta_rmfield': 1,
-    'rawtitle': 1, 'displaycol': 1, 'rule': 1, 'trigger': 2, 'choices': 1, 'copyfrom': 1, 'bad': 2,
+    'rawtitle': 1, 'displaycol': 1, 'rule': 1, 'trigger': 2, 'choices': 1, 'copyfrom': 1, 'bad': 2, 'sortspec': 2,
   },
   'formula': {
     'add': 12, 'update': 14, 'remove': 5,
@@ -802,7 +818,7 @@ PROFILES = {
     'modformula': 2, 'toggle': 3, 'rmtable': 2, 'rentable': 3, 'duptable': 1,
     'summary': 4, 'summaryupd': 3, 'detach': 2, 'addview': 2, 'addsection': 2, 'rmsection': 2, 'rmview': 2,
     'reverse': 3, 'meta_col': 6, 'meta_table': 2, 'meta_rmcol': 3, 'meta_rmtable': 2, 'meta_rmfield': 2,
-    'rawtitle': 2, 'displaycol': 2, 'rule': 2, 'trigger': 2, 'choices': 1, 'copyfrom': 1, 'bad': 3,
+    'rawtitle': 2, 'displaycol': 2, 'rule': 2, 'trigger': 2, 'choices': 1, 'copyfrom': 1, 'bad': 3, 'sortspec': 3,
   },
   # type changes of columns that formulas, summary tables and two-way references depend on
   'typechange': {
